@@ -30,25 +30,28 @@ def main():
     confirmed = ('70 passed' in res['tests_with_patch'] and res['demo_with_patch'][0] != 0
                  and res['demo_without_patch'][0] == 0)
     res['confirmed'] = confirmed
-    # our checks against it
-    rc, out = sh('git -C /repo status --short')
+    # our checks against it: in /repo itself, or (SEEDED_REPO=<clean worktree of /repo's HEAD>) in a scratch worktree so
+    # that several changes can be evaluated at the same time; whatever the runs write goes to a private directory
+    # (VERIF_OUT), never to the committed evidence
+    repo = os.environ.get('SEEDED_REPO', '/repo')
+    rc, out = sh('git -C %s status --short' % repo)
     if out.strip():
-        print('/repo is not clean:', out); return 1
-    rc, out = sh('git -C /repo apply %s' % patch)
+        print('%s is not clean:' % repo, out); return 1
+    rc, out = sh('git -C %s apply %s' % (repo, patch))
+    if rc != 0:
+        print('patch does not apply to', repo, out); return 1
     caught = {}
-    save = '/tmp/seeded_evidence_save'
-    shutil.rmtree(save, ignore_errors=True)
-    shutil.copytree('/verif/evidence', save)          # evidence written against a changed tree is never kept
+    outdir = '/tmp/seeded_out_%d' % os.getpid()
+    shutil.rmtree(outdir, ignore_errors=True)
+    os.makedirs(outdir)
     try:
         for chk in checks:
-            rc, out = sh('bin/check %s quick' % chk, '/verif')
-            lines = [l for l in out.splitlines() if l.startswith(('VIOLATION', 'PASS', 'FAIL', 'KNOWN'))]
+            rc, out = sh('VERIF_REPO=%s VERIF_OUT=%s bin/check %s quick' % (repo, outdir, chk), '/verif')
+            lines = [l.replace(outdir, '<out>') for l in out.splitlines() if l.startswith(('VIOLATION', 'PASS', 'FAIL', 'KNOWN'))]
             caught[chk] = dict(exit=rc, lines=lines[-4:])
     finally:
-        sh('git -C /repo checkout -- .')
-        shutil.rmtree('/verif/evidence', ignore_errors=True)
-        shutil.copytree(save, '/verif/evidence')
-        shutil.rmtree(save, ignore_errors=True)
+        sh('git -C %s checkout -- .' % repo)
+        shutil.rmtree(outdir, ignore_errors=True)
     res['checks'] = caught
     d = os.path.join('/verif/seeded', name)
     os.makedirs(d, exist_ok=True)
